@@ -3,6 +3,7 @@ package c20
 import (
 	"bytes"
 	"fmt"
+	"runtime"
 	"sync"
 	"testing"
 
@@ -242,9 +243,22 @@ func history(c Case, codec compress.Codec, feat string) *kit.Failure {
 					bad[lo+(len(bad)-1-lo)*s.BadAt/999] ^= 0x5A
 				}
 			}
+			if c.Codec == "lz4" && kind == "random" && s.BadAt%2 == 0 {
+				// a tiny block whose match offset is invalid: no buffer size makes it decodable
+				bad = [][]byte{{0x10, 'a', 0, 0, 0}, {0x1f, 'a', 0, 0, 0xff, 0xff, 3}, {0xf0}}[s.BadAt/2%3]
+			}
 			// the outcome (error, or garbage for formats without integrity check) is not asserted;
-			// it must return, must not panic, and must not affect later calls
+			// it must return, must not panic, and must not affect later calls. It must return without
+			// exhausting memory: a decoder that keeps doubling its buffer on an undecodable block never
+			// fails "with an error" (snappy / zstd declare their output size in a header and are given
+			// intact headers above; lz4 and the others have no such field).
+			var ms0, ms1 runtime.MemStats
+			runtime.ReadMemStats(&ms0)
 			codec.Decode(pickDst(s.Dst, len(x), nil), bad)
+			runtime.ReadMemStats(&ms1)
+			if grown := ms1.TotalAlloc - ms0.TotalAlloc; grown > 1<<30 {
+				return kit.Failf("c20/bad-decode-allocation"+feat, "step %d: Decode of %d undecodable bytes allocated %d MiB", si, len(bad), grown>>20)
+			}
 		}
 	}
 	return nil
